@@ -31,4 +31,21 @@ mut("C18 skip_serializing_if", [(PRE, "    pub num_loops: usize,\n}", "    #[ser
 mut("C18 N: rename", [(PRE, "    pub table: Vec<TropicalSubgraphTableEntry>,", "    #[serde(rename = \"tbl\")]\n    pub table: Vec<TropicalSubgraphTableEntry>,")], C18=None)
 mut("C18 rename only for serialize", [(PRE, "    pub table: Vec<TropicalSubgraphTableEntry>,", "    #[serde(rename(serialize = \"tbl\"))]\n    pub table: Vec<TropicalSubgraphTableEntry>,")], C18="C18-c")
 
+# ---- C19 ----
+mut("C19 sqrt via f64 in Cholesky", [(MAT, "let diagonal_entry = diagonal_entry_squared.sqrt();", "let diagonal_entry = diagonal_entry_squared.from_f64(diagonal_entry_squared.to_f64().sqrt());")], C19="C19-a")
+mut("C19 PI via from_f64", [(SAM, "let theta = x1.from_isize(2) * x1.PI() * x2;", "let theta = x1.from_isize(2) * x1.from_f64(std::f64::consts::PI) * x2;")], C19="C19-c")
+mut("C19 l21_norm accumulates in f64", [(MAT, "res += &vec_norm.sqrt();", "res = res.from_f64(res.to_f64() + vec_norm.to_f64().sqrt());")], C19="C19-a")
+mut("C19 N: to_f64 under debug flag", [(SAM, "println!(\"lambda: {:?}\", lambda);", "println!(\"lambda: {:?} {}\", lambda, lambda.to_f64());")], C19=None)
+# ---- C17 ----
+mut("C17 atomic counter bumped in sample", [(SAM, "    let num_loops = tropical_subgraph_table.tropical_graph.num_loops;\n\n    let mut mimic_rng", "    static CALLS: std::sync::atomic::AtomicUsize = std::sync::atomic::AtomicUsize::new(0);\n    CALLS.fetch_add(1, std::sync::atomic::Ordering::Relaxed);\n    let num_loops = tropical_subgraph_table.tropical_graph.num_loops;\n\n    let mut mimic_rng")], C17="C17-")
+mut("C17 Cell field in table", [(PRE, "    pub cached_factor: f64,\n}", "    pub cached_factor: f64,\n    pub hits: std::cell::Cell<usize>,\n}"), (PRE, "            cached_factor,\n            tropical_graph: tropical_graph.clone(),", "            cached_factor,\n            hits: Default::default(),\n            tropical_graph: tropical_graph.clone(),")], C17="C17-b")
+mut("C17 metadata flag alters v", [(SAM, "    let v = v_polynomial;", "    let v = if settings.return_metadata { v_polynomial.clone() + const_builder.zero() * &lambda } else { v_polynomial };")], C17="C17-f")
+mut("C17 debug flag skips stability test", [(MAT, "if let Some(tolerance) = settings.matrix_stability_test {", "if let (Some(tolerance), false) = (settings.matrix_stability_test, settings.print_debug_info) {")], C17="C17-f")
+mut("C17 draw one extra number", [(LIB, ".take(num_vars)", ".take(num_vars + 1)")], C17="C17-g")
+mut("C17 rng entry uses default settings", [(LIB, "            &x_space_point,\n            edge_data,\n            settings,", "            &x_space_point,\n            edge_data,\n            &TropicalSamplingSettings::default(),")], C17="C17-g")
+mut("C17 weight sum in hash order", [(PRE, "        connected_components\n            .iter()\n            .map(|c| self.get_loop_number_of_connected_component(c))\n            .sum()", "        let mut h: HashSet<usize> = HashSet::default();\n        for &e in edges_in_subgraph { h.insert(e); }\n        let w: f64 = h.iter().map(|&i| self.topology[i].weight).sum();\n        connected_components\n            .iter()\n            .map(|c| self.get_loop_number_of_connected_component(c))\n            .sum::<usize>() + (w as usize) * 0")], C17="C17-e")
+mut("C17 unguarded println in sample", [(SAM, "    let u_trop = permatuhedral_sample.u_trop;", "    println!(\"sampled\");\n    let u_trop = permatuhedral_sample.u_trop;")], C17="C17-d")
+mut("C17 N: immutable static + debug println", [(SAM, "    let u_trop = permatuhedral_sample.u_trop;", "    static NAMES: [&str; 2] = [\"u\", \"v\"];\n    if settings.print_debug_info { println!(\"{}\", NAMES[0]); }\n    let u_trop = permatuhedral_sample.u_trop;")], C17=None)
+mut("C17 N: String field in table", [(PRE, "    pub cached_factor: f64,\n}", "    pub cached_factor: f64,\n    pub label: String,\n}"), (PRE, "            cached_factor,\n            tropical_graph: tropical_graph.clone(),", "            cached_factor,\n            label: String::new(),\n            tropical_graph: tropical_graph.clone(),")], C17=None, C18=None)
+
 MUTATIONS = M
